@@ -164,8 +164,7 @@ def tree_specs(topo, tips, h, kind, calendar=False, names=None, tree_id="tree", 
     elif kind == "ratio":
         tree = {"id": tree_id, "type": "ReparameterizedTimeTreeModel", "newick": topo.newick(names), "taxa": pre + "taxa",
                 "ratios": tt.P(pre + "ratios", p["ratios"]), "root_height": tt.P(pre + "root_height", p["root_height"])}
-        if n > 2:
-            infos.append(info(pre + "ratios", "ReparameterizedTimeTreeModel[ratio]", "ratios", "unit"))
+        infos.append(info(pre + "ratios", "ReparameterizedTimeTreeModel[ratio]", "ratios", "unit"))
         infos.append(info(pre + "root_height", "ReparameterizedTimeTreeModel[ratio]", "root_height", "lower", lower=p["root_bound"]))
     else:
         tree = {"id": tree_id, "type": "ReparameterizedTimeTreeModel", "newick": topo.newick(names), "taxa": pre + "taxa",
@@ -182,7 +181,7 @@ def info(id_, owner, role, domain, lower=None, skip=None):
 def chain_for(domain, layers, flip, aff, values, lower=None):
     """list of (transform path, parameters) applied innermost first, mapping an unconstrained leaf onto `values`"""
     a, b = aff
-    if layers == 0 or domain in ("heights", "fixed"):
+    if layers == 0 or domain in ("heights", "fixed") or len(values) == 0:
         return []
     if domain == "pos":
         if layers == 1:
@@ -393,7 +392,7 @@ class Engine:
         skip = set(inf.get("skip") or []) if not inf["layers"] else set()
         cap = 3
         out = []
-        if dom == "fixed":
+        if dom == "fixed" or k == 0:
             return out
         if dom == "simplex":
             if k < 2:
@@ -750,6 +749,10 @@ def coal_cases(draw):
     c = draw(c08.case(nmax=12))
     c["batch"] = 0
     c.pop("scales", None)
+    n = len(c["g"]["s"])
+    c["route"] = draw(st.sampled_from(["times", "tree", "tree"]))
+    c["joins"] = [[draw(st.integers(0, 60)), draw(st.integers(0, 60))] for _ in range(n - 1)]
+    c["calendar"] = draw(st.booleans())
     c["kind"] = draw(st.sampled_from(TREE_KINDS))
     c["grid_param"] = draw(st.booleans())
     c["ex"] = draw(extras())
@@ -949,7 +952,7 @@ def bdsk_specs(c):
             infos.append(info("times", cls, "times", "heights", skip=[0]))
     if "r" in c:
         spec["removal_probability"] = tt.P("r", c["r"])
-        infos.append(info("r", cls, "removal_probability", "unit", skip=[j for j, x in enumerate(c["r"]) if x >= 0.999]))
+        infos.append(info("r", cls, "removal_probability", "unit"))
     specs = ts + [spec]
     th = t["tip_heights"]
     if c.get("constant_class") and m == 1 and "r" not in c and c["rho"][0] == 0 and max(th) > 0 and c["s"][0] > 0 and not c["root_edge"]:
@@ -1015,3 +1018,380 @@ def body_bdsk(c0):
     eng.run((target, c["kind"], rnd({k: c[k] for k in ("R", "delta", "s", "rho", "bh", "extra", "_h")}), c.get("r") and rnd(c["r"]), c["survival"], c["root_edge"],
              c["relative"], c["times_as"], c["tree"]["topo"], ex["order"]))
     return res
+
+
+# =========================================================================== GMRF and integrated priors
+def gc_topo(g):
+    """Topo (torchtree numbering) and {node: height} of a vt.gen.coal genealogy"""
+    n = g["n"]
+    children = {n + i: (a, b) for i, (a, b) in enumerate(g["joins"])}
+
+    def nested(node):
+        if node < n:
+            return node
+        l, r = children[node]
+        return [nested(l), nested(r)]
+
+    topo = Topo(nested(2 * n - 2))
+    _, hts, _ = gc.tree_of(g)
+    h = {i: g["samp"][i] for i in range(n)}
+    h.update({n + k: hts[k] for k in range(n - 1)})
+    return topo, h
+
+
+def prepare_genealogy(g, sep):
+    g = copy.deepcopy(g)
+    span = max(max(g["coal"]), 1e-3)
+    new = separate({j: t for j, t in enumerate(g["coal"])}, g["samp"], sep * span)
+    g["coal"] = [new[j] for j in range(len(g["coal"]))]
+    return g
+
+
+@st.composite
+def gmrf_cases(draw):
+    what = draw(st.sampled_from(["gmrf", "gmrf", "integrated", "coalint"]))
+    c = {"what": what, "ex": draw(extras()), "kind": draw(st.sampled_from(TREE_KINDS))}
+    if what == "coalint":
+        c["g"] = draw(gc.genealogies(2, 10))
+        c["alpha"] = draw(logu(1e-3, 1e2))
+        c["beta"] = draw(logu(1e-3, 1e2))
+        return c
+    c["variant"] = draw(st.sampled_from(["plain", "weighted", "time_aware", "time_aware"]))
+    if c["variant"] == "time_aware":
+        c["g"] = draw(gc.genealogies(3, 10))
+        n = c["g"]["n"] - 1
+        c["rescale"] = draw(st.sampled_from([None, True, False]))
+    else:
+        n = draw(st.integers(2, 12))
+    scale = draw(st.sampled_from([1e-2, 1.0, 1.0, 10.0]))
+    offset = draw(st.sampled_from([0.0, 0.0, 3.0, -100.0]))
+    c["x"] = [offset + scale * draw(fl(-1.0, 1.0)) for _ in range(n)]
+    if c["variant"] == "weighted":
+        c["weights"] = [draw(logu(1e-2, 1e2)) for _ in range(n - 1)]
+    if what == "gmrf":
+        c["tau"] = draw(logu(1e-3, 1e3))
+    else:
+        c["shape"] = draw(logu(1e-3, 1e2))
+        c["rate"] = draw(logu(1e-3, 1e2))
+    return c
+
+
+def body_gmrf(c):
+    ex = c["ex"]
+    what = c["what"]
+    specs, infos = [], []
+    if "g" in c:
+        g = prepare_genealogy(c["g"], ex["sep"])
+        topo, h = gc_topo(g)
+        specs, infos = tree_specs(topo, g["samp"], h, c["kind"])
+    if what == "coalint":
+        cls = "ConstantCoalescentIntegratedModel"
+        specs.append({"id": "target", "type": cls, "alpha": c["alpha"], "beta": c["beta"], "tree_model": "tree"})
+        variant = "tree"
+    else:
+        cls = "GMRF" if what == "gmrf" else "GMRFGammaIntegrated"
+        variant = c["variant"]
+        spec = {"id": "target", "type": cls, "x": tt.P("field", c["x"])}
+        infos.append(info("field", cls, "field", "real"))
+        if what == "gmrf":
+            spec["precision"] = tt.P("gmrf.precision", [c["tau"]])
+            infos.append(info("gmrf.precision", cls, "precision", "pos"))
+        else:
+            spec["shape"], spec["rate"] = c["shape"], c["rate"]
+        if variant == "weighted":
+            spec["weights"] = tt.P("weights", c["weights"])
+            infos.append(info("weights", cls, "weights", "pos"))
+        elif variant == "time_aware":
+            spec["tree_model"] = "tree"
+            if c["rescale"] is not None:
+                spec["rescale"] = c["rescale"]
+        specs.append(spec)
+    tags = {"cls": cls, "variant": variant, "tree": c["kind"] if "g" in c else "none"}
+    res = Res(nontrivial=False, tags=tags)
+    specs, _ = apply_plan(specs, infos, ex)
+    dic = build_all(specs)
+    if "g" in c and not np.all(arr(dic["tree"].branch_lengths()) > 0):
+        raise HarnessError("generator produced an invalid time tree")
+    eng = Engine(res, dic, dic["target"], infos, ex, heights_events(dic) if "g" in c else None, tags)
+    eng.lab("target=%s/%s" % (cls, variant))
+    if "g" in c:
+        eng.lab("tree=" + c["kind"])
+        eng.lab("hetero" if max(c["g"]["samp"]) > 0 else "iso")
+    eng.lab("order=" + ex["order"])
+    eng.run((cls, variant, c.get("kind"), rnd({k: v for k, v in c.items() if k not in ("ex",)}), ex["order"]))
+    return res
+
+
+# =========================================================================== CTMC scale, tree priors
+@st.composite
+def prior_cases(draw):
+    what = draw(st.sampled_from(["ctmc_time", "ctmc_time", "ctmc_unrooted", "gamma_dirichlet", "gamma_dirichlet"]))
+    c = {"what": what, "ex": draw(extras())}
+    if what == "ctmc_time":
+        c["g"] = draw(gc.genealogies(2, 10))
+        c["kind"] = draw(st.sampled_from(TREE_KINDS))
+    else:
+        c["topo"] = draw(topology(3 if what == "ctmc_unrooted" else 3, 9))
+        n = len(c["topo"]["perm"])
+        c["bl"] = [draw(logu(1e-4, 10.0)) for _ in range(2 * n - 3)]
+    if what.startswith("ctmc"):
+        c["rate"] = draw(logu(1e-4, 1e2))
+    else:
+        for k in ("alpha", "c", "shape", "rate"):
+            c[k] = draw(logu(0.05, 20.0))
+    return c
+
+
+def unrooted_specs(c):
+    topo = phylo.case_topo(c)
+    n = topo.n
+    names = names_for(n)
+    taxa = {"id": "taxa", "type": "Taxa", "taxa": [{"id": names[i], "type": "Taxon"} for i in range(n)]}
+    tree = {"id": "tree", "type": "UnRootedTreeModel", "newick": topo.newick(names), "taxa": "taxa", "branch_lengths": tt.P("bl", c["bl"])}
+    return [taxa, tree], [info("bl", "UnRootedTreeModel", "branch_lengths", "pos")]
+
+
+def body_priors(c):
+    ex = c["ex"]
+    what = c["what"]
+    if what == "ctmc_time":
+        g = prepare_genealogy(c["g"], ex["sep"])
+        topo, h = gc_topo(g)
+        specs, infos = tree_specs(topo, g["samp"], h, c["kind"])
+        events_needed = True
+    else:
+        specs, infos = unrooted_specs(c)
+        events_needed = False
+    if what.startswith("ctmc"):
+        cls = "CTMCScale"
+        specs.append({"id": "target", "type": cls, "x": tt.P("rate", [c["rate"]]), "tree_model": "tree"})
+        infos.append(info("rate", cls, "x", "pos"))
+    else:
+        cls = "CompoundGammaDirichletPrior"
+        spec = {"id": "target", "type": cls, "tree_model": "tree"}
+        for k in ("alpha", "c", "shape", "rate"):
+            spec[k] = tt.P("cgd." + k, [c[k]])
+            infos.append(info("cgd." + k, cls, k, "pos"))
+        specs.append(spec)
+    tags = {"cls": cls, "tree": c.get("kind", "unrooted")}
+    res = Res(nontrivial=False, tags=tags)
+    specs, _ = apply_plan(specs, infos, ex)
+    dic = build_all(specs)
+    eng = Engine(res, dic, dic["target"], infos, ex, heights_events(dic) if events_needed else None, tags)
+    eng.lab("target=" + cls)
+    eng.lab("tree=" + tags["tree"])
+    eng.lab("order=" + ex["order"])
+    eng.run((cls, tags["tree"], rnd({k: v for k, v in c.items() if k != "ex"}), ex["order"]))
+    return res
+
+
+# =========================================================================== Jacobian terms
+@st.composite
+def jacobian_cases(draw):
+    what = draw(st.sampled_from(["transformed", "transformed", "tree", "tree"]))
+    ex = draw(extras())
+    c = {"what": what, "ex": ex}
+    if what == "tree":
+        c["g"] = draw(gc.genealogies(3, 12))
+        c["kind"] = draw(st.sampled_from(["ratio", "ratio", "shift"]))
+        c["calendar"] = draw(st.booleans())
+        return c
+    ex["layers"] = [draw(st.sampled_from([1, 2])) for _ in range(8)]
+    dom = draw(st.sampled_from(["pos", "unit", "simplex", "real", "lower"]))
+    k = draw(st.integers(2 if dom == "simplex" else 1, 6))
+    c["domain"] = dom
+    if dom == "pos":
+        c["v"] = [draw(logu(1e-3, 1e3)) for _ in range(k)]
+    elif dom == "unit":
+        c["v"] = [draw(fl(0.01, 0.99)) for _ in range(k)]
+    elif dom == "simplex":
+        c["v"] = draw(simplex(k))
+    elif dom == "real":
+        c["v"] = [draw(fl(-5.0, 5.0)) for _ in range(k)]
+    else:
+        c["lower"] = draw(fl(-3.0, 3.0))
+        c["v"] = [c["lower"] + draw(logu(1e-2, 1e2)) for _ in range(k)]
+    return c
+
+
+def body_jacobian(c):
+    ex = c["ex"]
+    if c["what"] == "tree":
+        g = prepare_genealogy(c["g"], ex["sep"])
+        topo, h = gc_topo(g)
+        specs, infos = tree_specs(topo, g["samp"], h, c["kind"], calendar=c["calendar"])
+        tags = {"cls": "ReparameterizedTimeTreeModel", "tree": c["kind"]}
+        res = Res(nontrivial=False, tags=tags)
+        specs, _ = apply_plan(specs, infos, ex)
+        dic = build_all(specs)
+        eng = Engine(res, dic, dic["tree"], infos, ex, heights_events(dic), tags)
+        eng.lab("target=tree_jacobian/" + c["kind"])
+        eng.lab("order=" + ex["order"])
+        eng.run(("tree", c["kind"], rnd(g), ex["order"]))
+        return res
+    inf = info("p", "TransformedParameter", "x", c["domain"], lower=c.get("lower"))
+    specs, tps = apply_plan([tt.P("p", c["v"])], [inf], ex)
+    tags = {"cls": "TransformedParameter", "chain": "+".join(inf["chain"])}
+    res = Res(nontrivial=False, tags=tags)
+    if not inf["chain"]:
+        return res
+    # the callables of every layer: the outermost TransformedParameter reports the Jacobian of the last transform only
+    layer_ids = ["p.m%d" % k for k in range(len(inf["chain"]) - 1)] + ["p"]
+    specs = list(specs) + [{"id": "target", "type": "JointDistributionModel", "distributions": layer_ids}]
+    dic = build_all(specs)
+    inf["owner"] = "TransformedParameter"
+    inf["role"] = "x"
+    eng = Engine(res, dic, dic["target"], [inf], ex, None, tags)
+    eng.lab("chain=" + tags["chain"])
+    eng.lab("order=" + ex["order"])
+    eng.run(("tp", tags["chain"], rnd(c["v"]), ex["order"]))
+    return res
+
+
+# =========================================================================== joint distribution
+@st.composite
+def joint_cases(draw):
+    c = draw(phylo.like_case(families=("nucleotide",), nmax=6, tree_kinds=("time", "ratio", "ratio", "shift")))
+    c["rescale"] = draw(st.booleans())
+    c["coal"] = {"model": draw(st.sampled_from(c08.MODELS + ["none"])), "theta": [draw(logu(1e-2, 1e2)) for _ in range(8)],
+                 "growth": draw(st.sampled_from([-1.0, 1.0])) * draw(logu(1e-3, 1.0)), "gridf": [draw(fl(0.05, 1.5)) for _ in range(5)], "m": draw(st.integers(2, 6))}
+    c["with"] = {k: draw(st.booleans()) for k in ("priors", "ctmc", "gmrf", "tree_jacobian", "tp_jacobians")}
+    c["field"] = [draw(fl(-2.0, 2.0)) for _ in range(8)]
+    c["tau"] = draw(logu(1e-2, 1e2))
+    c["ex"] = draw(extras())
+    return c
+
+
+PRIORS = {
+    "kappa": ("torch.distributions.LogNormal", {"loc": 1.0, "scale": 1.25}),
+    "rates": ("torch.distributions.Gamma", {"concentration": 2.0, "rate": 1.5}),
+    "shape": ("torch.distributions.Exponential", {"rate": 2.0}),
+    "pinv": ("torch.distributions.Beta", {"concentration1": 1.5, "concentration0": 2.5}),
+    "mu": ("torch.distributions.LogNormal", {"loc": 0.0, "scale": 1.0}),
+    "rate": ("torch.distributions.LogNormal", {"loc": -4.0, "scale": 2.0}),
+    "clock.rates": ("torch.distributions.LogNormal", {"loc": -4.0, "scale": 2.0}),
+    "theta": ("torch.distributions.Gamma", {"concentration": 1.5, "rate": 0.1}),
+    "growth": ("torch.distributions.Normal", {"loc": 0.0, "scale": 2.0}),
+    "shifts": ("torch.distributions.Exponential", {"rate": 0.5}),
+    "ratios": ("torch.distributions.Beta", {"concentration1": 1.2, "concentration0": 1.3}),
+}
+
+
+def body_joint(c0):
+    c = prepare_like(c0)
+    ex = c["ex"]
+    tags = like_tags(c)
+    tags["cls"] = "JointDistributionModel"
+    res = Res(nontrivial=False, tags=tags)
+    infos = like_infos(c)
+    specs = phylo.like_spec(c)
+    topo, names, dates, bl, h = phylo.tree_geometry(c)
+    n = topo.n
+    root = h[topo.root]
+    delta = ex["sep"] * max(root, 1e-3)
+    parts = ["like"]
+    co = c["coal"]
+    model = co["model"]
+    grid = None
+    if model != "none":
+        cls = c08.CLS[model]
+        size = {"constant": 1, "exponential": 1, "skyride": n - 1}.get(model, co["m"])
+        spec = {"id": "coal", "type": cls, "theta": tt.P("theta", co["theta"][:size]), "tree_model": "tree"}
+        infos.append(info("theta", cls, "theta", "pos"))
+        if model == "exponential":
+            gr = co["growth"]
+            if abs(gr) * root > 30.0:
+                gr = math.copysign(30.0 / root, gr)
+            spec["growth"] = tt.P("growth", [gr])
+            infos.append(info("growth", cls, "growth", "real"))
+        if model in ("skygrid", "linear"):
+            pts = sorted(f * root for f in co["gridf"][: size - 1])
+            new = separate({j: t for j, t in enumerate(pts)}, [h[i] for i in range(2 * n - 1)], delta)
+            grid = sorted(new.values())
+            spec["grid"] = grid
+        specs.append(spec)
+        parts.append("coal")
+    w = c["with"]
+    if w["ctmc"] and c["tree"]["clock"]["kind"] == "strict":
+        specs.append({"id": "ctmc", "type": "CTMCScale", "x": "rate", "tree_model": "tree"})
+        parts.append("ctmc")
+    if w["gmrf"] and n >= 3:
+        specs.append({"id": "gmrf", "type": "GMRF", "x": tt.P("field", c["field"][: n - 1]), "precision": tt.P("gmrf.precision", [c["tau"]]), "tree_model": "tree"})
+        infos += [info("field", "GMRF", "field", "real"), info("gmrf.precision", "GMRF", "precision", "pos")]
+        parts.append("gmrf")
+    present = {i["id"] for i in infos}
+    if w["priors"]:
+        for pid, (dist, par) in sorted(PRIORS.items()):
+            if pid in present:
+                specs.append({"id": "prior." + pid, "type": "Distribution", "distribution": dist, "x": pid, "parameters": par})
+                parts.append("prior." + pid)
+        if "freqs" in present:
+            k = len(c["model"]["freqs"])
+            specs.append({"id": "prior.freqs", "type": "Distribution", "distribution": "torch.distributions.Dirichlet", "x": "freqs", "parameters": {"concentration": [1.5] * k}})
+            parts.append("prior.freqs")
+    if w["tree_jacobian"] and c["tree"]["kind"] != "time":
+        parts.append("tree")
+    specs, tps = apply_plan(specs, infos, ex)
+    if w["tp_jacobians"]:
+        for i in infos:
+            if i["layers"]:
+                parts += ["%s.m%d" % (i["id"], k) for k in range(i["layers"] - 1)] + [i["id"]]
+    specs = list(specs) + [{"id": "joint", "type": "JointDistributionModel", "distributions": parts}]
+    dic = build_all(specs)
+    if c.get("rescale"):
+        dic["like"].rescale = True
+
+    def events():
+        e = arr(dic["tree"].node_heights).reshape(-1).tolist()
+        return e + (grid or [])
+
+    eng = Engine(res, dic, dic["joint"], infos, ex, events, tags)
+    like_labels(eng, c)
+    eng.lab("coalescent=" + model)
+    eng.lab("components=%d" % len(parts))
+    for k, v in sorted(w.items()):
+        if v:
+            eng.lab("with_" + k)
+    eng.run(("joint", like_ident(c), model, rnd(co), sorted(k for k, v in w.items() if v)))
+    return res
+
+
+# =========================================================================== registration
+def selftest():
+    numdiff.selftest()
+    # separation: order preserved, gaps respected
+    out = separate({0: 1.0, 1: 1.0, 2: 1.0000001, 3: 2.0}, [0.0, 1.05, 2.0], 0.1)
+    v = [out[k] for k in range(4)]
+    assert v == sorted(v) and min(np.diff(v)) >= 0.1 - 1e-12, v
+    assert all(abs(x - f) >= 0.1 - 1e-12 for x in v for f in (0.0, 1.05, 2.0)), v
+    # a transform chain reproduces the requested values
+    for dom, vals, low in (("pos", [0.3, 20.0], None), ("unit", [0.2, 0.9], None), ("simplex", [0.1, 0.2, 0.7], None), ("real", [-2.0, 3.0], None), ("lower", [2.5, 7.0], 2.0)):
+        for layers in (1, 2):
+            for flip in (False, True):
+                chain = chain_for(dom, layers, flip, [0.4, -1.7], vals, low)
+                spec = wrap_parameter(tt.P("p", vals), chain, False)
+                obj, _ = tt.build(spec)
+                got = arr(obj.tensor).reshape(-1)
+                assert np.allclose(got, vals, rtol=1e-10, atol=1e-12), (dom, layers, flip, got.tolist())
+    # the spectrum classifier
+    Q, pi = OL.q_model({"name": "GTR", "rates": [1.0] * 6, "freqs": [0.1, 0.2, 0.3, 0.4]})
+    assert min_rel_gap(Q, pi) < 1e-12
+    Q, pi = OL.q_model({"name": "GTR", "rates": [0.5, 1.7, 0.8, 1.1, 2.3, 1.0], "freqs": [0.1, 0.2, 0.3, 0.4]})
+    assert min_rel_gap(Q, pi) > 1e-3
+
+
+def _pre(cls_of):
+    return lambda c: {"cls": cls_of(c)}
+
+
+def subchecks(tier):
+    return [
+        Sub("likelihood", body_like, strategy=like_cases, quick=700, thorough=20000, pretags=like_pretags),
+        Sub("coalescent", body_coal, strategy=coal_cases, quick=500, thorough=12000, pretags=lambda c: {"cls": c08.CLS[c["p"]["model"]]}),
+        Sub("skyline", body_bdsk, strategy=bdsk_cases, quick=250, thorough=6000, pretags=_pre(lambda c: "BDSKModel")),
+        Sub("gmrf", body_gmrf, strategy=gmrf_cases, quick=400, thorough=8000, pretags=_pre(lambda c: c["what"])),
+        Sub("priors", body_priors, strategy=prior_cases, quick=300, thorough=6000, pretags=_pre(lambda c: c["what"])),
+        Sub("jacobian", body_jacobian, strategy=jacobian_cases, quick=400, thorough=8000, pretags=_pre(lambda c: c["what"])),
+        Sub("joint", body_joint, strategy=joint_cases, quick=250, thorough=6000, pretags=lambda c: dict(like_pretags(c), cls="JointDistributionModel")),
+        Sub("degenerate_start", body_degenerate, enumerate=degenerate_cases, exhaustive=True, pretags=degenerate_tags),
+    ]
